@@ -753,6 +753,36 @@ static carquet_status_t load_dictionary_page_fread(
     return status;
 }
 
+/**
+ * Replace the retained BYTE_ARRAY page data by new_data.
+ *
+ * carquet_byte_array_t values already copied out to the caller during the
+ * current read call point into the old buffer, so it cannot be freed here:
+ * it is parked until the next read call on this column reader.
+ */
+static carquet_status_t replace_page_data_for_values(
+    carquet_column_reader_t* reader,
+    uint8_t* new_data) {
+
+    if (reader->page_data_for_values) {
+        if (reader->num_retired_pages == reader->retired_pages_capacity) {
+            int32_t new_capacity = reader->retired_pages_capacity ?
+                reader->retired_pages_capacity * 2 : 4;
+            uint8_t** grown = realloc(reader->retired_page_data,
+                                      (size_t)new_capacity * sizeof(uint8_t*));
+            if (!grown) {
+                return CARQUET_ERROR_OUT_OF_MEMORY;
+            }
+            reader->retired_page_data = grown;
+            reader->retired_pages_capacity = new_capacity;
+        }
+        reader->retired_page_data[reader->num_retired_pages++] =
+            reader->page_data_for_values;
+    }
+    reader->page_data_for_values = new_data;
+    return CARQUET_OK;
+}
+
 /* ============================================================================
  * Helper: Load and decode a new page (mmap path with zero-copy support)
  * ============================================================================
@@ -931,8 +961,11 @@ static carquet_status_t load_next_page_mmap(
      * which persists for the reader's lifetime, so no retention needed. */
     if (decompressed && reader->type == CARQUET_PHYSICAL_BYTE_ARRAY &&
         page_header.data_page_header.encoding == CARQUET_ENCODING_PLAIN) {
-        free(reader->page_data_for_values);
-        reader->page_data_for_values = decompressed;
+        if (replace_page_data_for_values(reader, decompressed) != CARQUET_OK) {
+            free(decompressed);
+            CARQUET_SET_ERROR(error, CARQUET_ERROR_OUT_OF_MEMORY, "Failed to retain page data");
+            return CARQUET_ERROR_OUT_OF_MEMORY;
+        }
     } else {
         free(decompressed);
     }
@@ -1114,8 +1147,14 @@ static carquet_status_t load_next_page_fread(
                    page_header.data_page_header.encoding == CARQUET_ENCODING_PLAIN);
 
     if (retain) {
-        free(reader->page_data_for_values);
-        reader->page_data_for_values = page_data;
+        if (replace_page_data_for_values(reader, page_data) != CARQUET_OK) {
+            if (compressed && compressed != page_data) {
+                free(compressed);
+            }
+            free(page_data);
+            CARQUET_SET_ERROR(error, CARQUET_ERROR_OUT_OF_MEMORY, "Failed to retain page data");
+            return CARQUET_ERROR_OUT_OF_MEMORY;
+        }
         /* Free compressed buffer only if it's a separate allocation */
         if (compressed && compressed != page_data) {
             free(compressed);
